@@ -522,3 +522,42 @@ def _(c):
     c.hook("before", "self._client.send", [
         ("assert", "goes-to-the-coordinator-known-at-the-time", "self.coordinator_id is not None and a0 == self.coordinator_id and a1 == request"),
     ])
+    c.replay_fn = lambda model, ob=None: {"script": _SEND_REQ_SCRIPT}
+
+
+# replay: the real _send_req over a client whose send fails in each of the ways a send can fail
+_SEND_REQ_SCRIPT = '''
+import asyncio, logging
+logging.disable(logging.CRITICAL)
+from unittest import mock
+from aiokafka import errors as E
+from aiokafka.consumer.group_coordinator import GroupCoordinator
+from aiokafka.protocol.commit import OffsetFetchRequest
+async def main():
+    bad = []
+    for exc in (E.NodeNotReadyError("n"), E.KafkaConnectionError("c"), E.RequestTimedOutError(), E.NotCoordinatorForGroupError()):
+        coord = GroupCoordinator.__new__(GroupCoordinator)
+        coord.group_id = "g"
+        coord.coordinator_id = 7
+        coord._coordinator_dead_fut = asyncio.get_running_loop().create_future()
+        coord._client = mock.MagicMock()
+        sent = []
+        async def send(node, request, group=None, exc=exc):
+            sent.append(node)
+            raise exc
+        coord._client.send = send
+        try:
+            await coord._send_req(OffsetFetchRequest("g", []))
+            bad.append("%s: no error reached the caller" % type(exc).__name__)
+        except E.KafkaError:
+            pass
+        if sent != [7]:
+            bad.append("%s: sent to %r, the coordinator is node 7" % (type(exc).__name__, sent))
+        if coord.coordinator_id is not None or not coord._coordinator_dead_fut.done():
+            bad.append("%s: the send failed and node %r is still taken for the coordinator (nothing looks the coordinator up again)" % (type(exc).__name__, coord.coordinator_id))
+    return bad
+bad = asyncio.run(main())
+VIOLATED = bool(bad)
+DETAIL = "_send_req: %r" % (bad[:3],) if bad else "ok"
+'''
+
